@@ -23,6 +23,11 @@ mod rules;
 #[cfg(feature = "metrics")]
 mod metrics;
 
+// verification hook: compiled only with RUSTFLAGS="--cfg redproxy_verif"
+#[cfg(redproxy_verif)]
+#[path = "/verif/harness/driver.rs"]
+mod verif_driver;
+
 use crate::{connectors::Connector, context::ContextRefOps, copy::copy_bidi, listeners::Listener};
 
 pub const VERSION: &str = env!("CARGO_PKG_VERSION");
@@ -65,6 +70,11 @@ impl GlobalState {
 }
 #[tokio::main]
 async fn main() -> Result<(), Terminator> {
+    #[cfg(redproxy_verif)]
+    if std::env::var_os("REDPROXY_VERIF_DRIVER").is_some() {
+        verif_driver::main().await;
+        return Ok(());
+    }
     let args = clap::Command::new(env!("CARGO_BIN_NAME"))
         .version(VERSION)
         .arg(
